@@ -5,6 +5,8 @@
 # confirmation result and the obligations of the registered check that fail with the patch applied.
 import json, os, re, shutil, sys
 src=sys.argv[1] if len(sys.argv)>1 else '/tmp/r3out'; dst='/verif/seeded'
+SUFFIX=dict(kv.split('=') for kv in os.environ.get('SUFFIX_MAP','a=4,b=5').split(','))
+ROUND=int(os.environ.get('ROUND','3'))
 confirm={}
 for fn in sys.argv[2:]:
     for l in open(fn):
@@ -28,14 +30,14 @@ for cid in sorted(os.listdir(src)):
     m=re.match(r'(C\d+)_([ab])$',cid)
     d=os.path.join(src,cid)
     if not m or cid not in confirm or 'demo_unpatched=PASS demo_patched=FAIL' not in confirm[cid] or 'suite_with_patch=PASS' not in confirm[cid]: continue
-    nid=m.group(1)+'_'+{'a':'4','b':'5'}[m.group(2)]
+    nid=m.group(1)+'_'+SUFFIX[m.group(2)]
     o=os.path.join(dst,nid); shutil.rmtree(o,ignore_errors=True); os.makedirs(o)
     shutil.copy(d+'/patch.diff',o+'/patch.diff')
     shutil.copytree(d+'/demo',o+'/demo')
     demos=[os.path.relpath(os.path.join(r,f),o+'/demo') for r,_,fs in os.walk(o+'/demo') for f in fs if f.endswith('_test.go')]
     meta=json.load(open(d+'/meta.json'))
     vp=viol(d+'/govc_prop.txt'); va=viol(d+'/govc.txt'); first=viol(d+'/first_prop.txt') if os.path.exists(d+'/first_prop.txt') else vp
-    meta.update({'id':nid,'round':3,'property':m.group(1),'demo_files':sorted(demos),
+    meta.update({'id':nid,'round':ROUND,'property':m.group(1),'demo_files':sorted(demos),
       'demo_placement':'copy the tree under demo/ into the repository root (tests and fixtures keep their relative paths) and run go test -vet=off -count=1 -run <TestName> ./<dir of the test>',
       'confirmed':confirm[cid],'check':'/verif/check %s quick'%m.group(1),
       'reported_by_the_check_as_it_stood_when_the_change_arrived':bool(first),
@@ -51,5 +53,5 @@ for nid,prop,meta in rows:
     c='**no**' if not vp else ('yes (undecided: contract no longer matches the code)' if meta['caught_only_as_undecided'] else 'yes')
     if vp and not meta['reported_by_the_check_as_it_stood_when_the_change_arrived']: c+=' (after strengthening)'
     lines.append('| %s | %s | %s… | %s | %s |'%(nid,prop,wb,c,ob or '–'))
-open('/verif/seeded/CATCH_MATRIX_round3.md','w').write('| change | property | what the change does (short) | caught by `/verif/check <id> quick` | failing obligations |\n|---|---|---|---|---|\n'+'\n'.join(lines)+'\n')
+open('/verif/seeded/CATCH_MATRIX_round%d.md'%ROUND,'w').write('| change | property | what the change does (short) | caught by `/verif/check <id> quick` | failing obligations |\n|---|---|---|---|---|\n'+'\n'.join(lines)+'\n')
 print('\n'.join(lines))
